@@ -6,6 +6,7 @@ JSON line (pid-tagged, ordered) to the file named by $ZTR_TRACE.
 import json
 import os
 import sys
+import time
 import unittest
 
 HERE = os.path.dirname(os.path.abspath(__file__))
@@ -59,6 +60,10 @@ def captured():
 
 
 trace({"ev": "import", "argv": sys.argv[1:6]})
+
+if WORLD.get("sysPathObject"):
+    import pathlib
+    sys.path.append(pathlib.Path(HERE) / "not-a-string-entry")
 
 # code under test that binds the standard input when it is imported (before the runner's features are set up)
 _stdin_readline = sys.stdin.readline
@@ -121,6 +126,16 @@ def py_death(how):
         raise KeyboardInterrupt()
 
 
+_clock = [0.0, time.time]
+
+
+def clock_jump(seconds):
+    """the clock moves on by `seconds` - what the runner sees when a hook or a test takes that long"""
+    _clock[0] += seconds
+    real = _clock[1]
+    time.time = lambda: real() + _clock[0]
+
+
 def _attempt(kind, idx):
     k = _attempts.get((kind, idx), 0)
     _attempts[(kind, idx)] = k + 1
@@ -160,6 +175,8 @@ def make_hooks(idx, spec):
                 sys.stdout.flush()
                 py_death(spec["dieInSetUp"])
                 os._exit(0 if spec["dieInSetUp"] == "exit0" else 3)
+            if spec.get("slowSetUp"):
+                clock_jump(spec["slowSetUp"])
             if raises:
                 raise_styled(spec.get("excStyle"), LayerError, "setUp of layer %d fails (attempt %d)" % (idx, k), hook="setUp")
             if spec.get("swapStreams"):
@@ -175,6 +192,8 @@ def make_hooks(idx, spec):
                     code = c
                     break
             trace({"ev": "ltd", "l": idx, "r": ["ok", "raise", "notimpl"][code], "own": own_streams()})
+            if spec.get("slowTearDown"):
+                clock_jump(spec["slowTearDown"])
             if code != 2 and _swapped and _swapped[-1][0] == idx:
                 sys.stdout, sys.stderr = _swapped[-1][3], _swapped[-1][4]
                 _swapped.pop()
@@ -261,6 +280,8 @@ def do_part(test, ph, part):
                 buf.flush()
             else:
                 stream.write("TOK%dK\n" % tok)
+    if part.get("slow"):
+        clock_jump(part["slow"])
     if part.get("fd2"):
         os.write(2, part["fd2"].encode("latin-1"))
     if part.get("chdir"):
